@@ -320,7 +320,10 @@ def run_divf_arm():
     from units import vmk
     sc = E.Scratch("u9d")
     try:
-        info = vmk.build(sc.path, arms=['DivFloat', 'DivFloatImm'], harness_src=open(os.path.join(HERE, 'divf_twin.rs')).read())
+        kf = kcrate.vm_arm_facts('DivFloat')
+        if [k for _, k in kf['conds']] != ['DivisionByZero'] or [c for c, _ in kf['conds']] != ['b == 0.0']:
+            raise S.SliceError("DivFloat arm: error condition is no longer `b == 0.0` -> DivisionByZero: %r" % kf['conds'])
+        info = vmk.build(sc.path, arms=['DivFloatImm'], harness_src=open(os.path.join(HERE, 'divf_twin.rs')).read())
         res, _ = run_kani_seq(sc.path, ['vm::u9_divf::divfloatimm_zero_divisor'], 600)
         r = res['vm::u9_divf::divfloatimm_zero_divisor']
         st, detail = r['status'], "\n".join(r['failed'][:6]) or r['raw'][-800:]
